@@ -387,6 +387,8 @@ def _r2(ck: Checker, prog: Program):
             if getattr(a, "func", None) is not None and getattr(a.func, "__name__", "") == "_find_peak_bounded":
                 call = a
     if call is None:
+        if any(isinstance(c_, ast.Call) and call_name(c_) in ("_find_peak_unbounded", "find_peaks") for c_ in ast.walk(lp)):
+            raise AnalysisError(f"{fq}: the per-window peak is searched without _find_peak_bounded (the bounded search is spelled out in place): not decided")
         ck.violation("C08.R2", fq, "per-window search", "no call of _find_peak_bounded decides the per-window peak", loc=m.loc(lp))
         return
     a = list(call.args)
